@@ -19,6 +19,8 @@ FIXES = [
     ('537c9db', 'C18', 'D11 unknown group name in replacement'),
     ('e1e8052', 'C18', 'D12 integer too large for text'),
     ('d7fc2e4', 'C14', 'D13 spooled file rollover position'),
+    ('2b4e2ef+2afec72', 'C06', 'D14 line-leading && outside parentheses (with the later D15)'),
+    ('2b4e2ef', 'C06', 'D15 operands inside parentheses'),
 ]
 
 
